@@ -6,23 +6,33 @@ HERE = os.path.dirname(os.path.dirname(os.path.abspath(__file__)))
 
 CLAIMED = {
     "C01": dict(
-        text="Machine-checked proof (Lean 4) that the mirror of the discrete-time offline visitor computes README rho for every "
-             "formula and every trace of length >= 1, returns one pair per sample and ignores the time column; the mirror is tied "
-             "to /repo on every run by a table regenerated from the source (which visitX are overridden) and by a differential "
-             "correspondence run (implementation vs mirror bit-for-bit, vs rho numerically).",
-        note="Lean kernel + propext/Classical.choice/Quot.sound; values assumed to form a bounded linear order (no NaN); the "
-             "tie to the Python code is sampled (generators) except for the regenerated visitor table; CPython/libm primitives modelled.",
-        technique="Lean 4 proof by structural induction (M-alg = M-spec) + source-derived table + differential correspondence",
+        text="Machine-checked proof (Lean 4): the 39 visitX methods of the discrete-time offline visitor are translated from the "
+             "Python source on every run (harness/py2lean.py) into a deep embedding of the Python subset they are written in, and "
+             "genOff_eval proves that the translated visitor computes - values and exceptions - what the hand-written mirror "
+             "evalOff computes; C01_offline_eq_rho proves that the mirror returns README rho for every formula and every trace of "
+             "length >= 1, one pair per sample, independent of the time column. Source -> translated terms = mirror = rho. The "
+             "evaluate() wrapper and the visitor dispatch are mirrored by hand and covered by a differential correspondence run "
+             "(implementation vs mirror vs translated code bit-for-bit, vs rho numerically) and a regenerated table of the "
+             "overridden visitX.",
+        note="Lean kernel + propext/Classical.choice/Quot.sound; values assumed to form a bounded linear order (no NaN); trusted: "
+             "the syntactic translator and the Lean semantics of the Python subset (exercised against the real monitor on every "
+             "run), the hand-written dispatch/evaluate glue (sampled correspondence); CPython/libm primitives modelled.",
+        technique="Lean 4 proof (translated source = mirror by symbolic execution + loop invariants; mirror = rho by structural induction) + source-derived table + differential correspondence",
         design="DESIGN.md §4 C01"),
     "C02": dict(
-        text="Machine-checked proof (Lean 4) that a freshly constructed discrete-time online monitor (mirror of the 25 operation "
+        text="Machine-checked proof (Lean 4): the 33 discrete-time online operation classes are translated from the Python source on "
+             "every run; GenOps proves that __init__/update/reset of every translated class act as the mirror state machines, "
+             "genOn_run that the monitor assembled from them equals the mirror monitor, genOn_rho that it returns rho at every "
+             "update. Further: a freshly constructed discrete-time online monitor (mirror of the operation "
              "classes and of the update visitor) returns rho(phi,w,i) at the i-th update for every formula without future operators, "
              "that this value depends on the samples fed so far only, and that it equals the offline value at sample i on every "
              "extension; tied to /repo by the regenerated table of the construction visitor and a differential correspondence run "
              "(update() stream vs mirror bit-for-bit, vs rho, vs the implementation's own evaluate()), including duplicated text "
              "and shared sub-specifications.",
-        note="Lean kernel + propext/Classical.choice/Quot.sound; no NaN; the model keeps operator state per syntax-tree position, "
-             "the code per printed node name (one evaluation per name and update): that equivalence is validated by correspondence only.",
+        note="Lean kernel + propext/Classical.choice/Quot.sound; no NaN; trusted: the syntactic translator and the Lean semantics of "
+             "the Python subset (run against the real monitor on every run); the construction/update visitors (which class for "
+             "which node, the per-name dictionary and memo) are mirrored by hand (C09_program_eq_rho relates the name-keyed "
+             "dictionary to per-position state) and tied by the sampled correspondence.",
         technique="Lean 4 proof (per-operator stream invariants + structural induction) + source-derived table + differential correspondence",
         design="DESIGN.md §4 C02"),
     "C03": dict(
